@@ -15,9 +15,42 @@ LEMMAS = [{"id": "L9", "statement": "import_(export(t)) is isomorphic to t; expo
            "dictionary (value world); covered by the bounded stand-in only"}]
 
 
+IMPORT_BODY = '''
+if ASSERTIONS:
+    assert isinstance(data, dict)
+    assert "parent" not in data
+attrs = dict(data)
+children = attrs.pop("children", [])
+node = self.nodecls(parent=parent, **attrs)
+for child in children:
+    self.__import(child, parent=node)
+return node
+'''
+
+
+def importer_obligations(res):
+    """DictImporter is not under a semantic contract (it builds nodes from a dictionary: heap world meets value world); its three
+    small methods are pinned syntactically - copy of the argument, 'children' popped from the copy, one nodecls call with the
+    remaining attributes, every child imported in order under the new node - and its behaviour is covered by the bounded stand-in"""
+    import ast
+    from . import text_props
+    rel = "anytree/importer/dictimporter.py"
+    f = text_props.fn(res, rel, "DictImporter", "__import")
+    if f:
+        text_props.syn(res, "C10", rel + ":DictImporter.__import/copy-pop-construct-recurse-in-order",
+                       text_props.dump(f.body) == text_props.dump(ast.parse(IMPORT_BODY).body) and ast.unparse(f.node.args) == "self, data, parent=None")
+    f = text_props.fn(res, rel, "DictImporter", "import_")
+    if f:
+        text_props.syn(res, "C10", rel + ":DictImporter.import_/delegates", text_props.dump(f.body) == text_props.dump(ast.parse("return self.__import(data)").body))
+    f = text_props.fn(res, rel, "DictImporter", "__init__")
+    if f:
+        text_props.syn(res, "C10", rel + ":DictImporter.__init__/stores-nodecls", text_props.dump(f.body) == text_props.dump(ast.parse("self.nodecls = nodecls").body))
+
+
 def collect(res):
     reg, specs = dictio.build()
     seq_props.collect_specs(res, specs)
+    importer_obligations(res)
     for o in res.obligations:
         o.props = set(o.props) | {"C10"}
 
